@@ -45,6 +45,18 @@ CLAIMED = {
         "symbolic execution of the real Python code (vx) to QF_FP / LRA terms, decided by cvc5 and z3",
         "DESIGN.md section 4 C16",
     ),
+    "C15": (
+        "model_checking",
+        "Real model functions / kernels (numba bypassed via .py_func) executed on z3 reals: simple_collection, simple_conversion/"
+        "apply_qe (binomial draw = fresh integer with contract 0<=k<=n), simple_full_well, ipc_kernel on 2x2 symbolic frames; "
+        "run_cdm_parallel/serial with symbolic beta (uninterpreted pow/exp with valid axioms), 2 (3) transfers, 1 (2) trap species; "
+        "persistence kernels: 1 species fully symbolic, 1..3 species with symbolic pixel/trapped/capacity values over a stated list of "
+        "concrete parameter vectors (fully symbolic 2..3 species in thorough, may be inconclusive: NRA). Clip branches are enumerated as paths.",
+        "Real arithmetic (no rounding, no fastmath reassociation); FFT convolution of IPC and sampler internals outside; "
+        "persistence parameter vectors for >=2 species are a concrete list (stated in evidence bounds).",
+        "dynamic symbolic execution of the real Python code (vx) + z3 LRA/NRA+UF, path-witness replay",
+        "DESIGN.md section 4 C15",
+    ),
 }
 
 NOT_APPLICABLE = {
